@@ -113,6 +113,11 @@ type PartAdder func(string) []string
 
 // BuildName builds a name from segments
 func (s SplitKey) BuildName(segments []string, startIndex int, adder PartAdder) string {
+	if startIndex > len(s) {
+		// e.g. a key pointing to a response rather than to the schema of this response
+		startIndex = len(s)
+	}
+
 	for i, part := range s[startIndex:] {
 		if _, ignored := ignoredKeys[part]; !ignored || s.isKeyName(startIndex+i) {
 			segments = append(segments, adder(part)...)
